@@ -471,6 +471,8 @@ def orc_c12(ctx, op, req, impl, model, spec):
                 return "LanguageIdentifier ordering is %s, field-by-field comparison (absent first) gives %s" % (d["licmp"], want)
             if want != "eq" and d["cmp"] != want:
                 return "Locale ordering is %s although the language identifiers compare %s" % (d["cmp"], want)
+        if d.get("self", "1eq") != "1eq":
+            return "a value compared with itself (the same object) is not equal / Equal: self=%s" % d.get("self")
         if (d["eq"] == "1") != (d["se"] == "1"):
             return "x == y is %s but string equality is %s" % (d["eq"], d["se"])
         if d["eq"] == "1" and (d["he"] != "1" or d["cmp"] != "eq"):
@@ -1042,8 +1044,22 @@ def gen_requests(harness, cfg, tier, seed, workdir):
                 r = subprocess.run([harness, "gen", stream, cfg.stream_tier or tier, str(seed)], stdout=fo, stderr=subprocess.PIPE, env=env)
             if r.returncode != 0:
                 raise RuntimeError("generator %s failed: %s" % (stream, r.stderr.decode()))
+        if stream != "macros":
+            repeat_lines(p)
         files.append((stream, p))
     return files
+
+
+def repeat_lines(path, every=6):
+    """every 6th request is asked twice in a row (of the same process): an answer that changes when the same question is asked
+    again (a memo keyed by the last input, a scratch buffer left behind by the first call) shows on the second one"""
+    tmp = path + ".rep"
+    with open(path) as fi, open(tmp, "w") as fo:
+        for i, line in enumerate(fi):
+            fo.write(line)
+            if i % every == 3 and not line.startswith("mac "):
+                fo.write(line)
+    os.replace(tmp, path)
 
 
 def judge(cfg, req, impl, mo, ctx):
@@ -1145,6 +1161,13 @@ def check(pid, tier, seed):
         return 2
     thms, audit_out, audit_rc = ([], "", 1)
     broken_theorems = []
+    # the CLDR constants the theorems speak about are the output of gen/cldr2lean.py; an independent reader written in Lean
+    # (Lean.Json, own classification and packing: lean/UnicLocale/CldrCheck.lean) must arrive at the same lists
+    cc = subprocess.run([R.DRIVER, "cldrcheck", os.path.join(R.REPO, "unic-langid-impl")], stdout=subprocess.PIPE,
+                        stderr=subprocess.STDOUT, text=True)
+    cldr_crosscheck = cc.stdout.strip()
+    if cc.returncode != 0 or not cldr_crosscheck.startswith("ok "):
+        broken_theorems.append("translator cross-check: the Lean reader of the CLDR JSON disagrees with gen/cldr2lean.py: " + cldr_crosscheck[:400])
     if ok_thm:
         thms, audit_out, audit_rc = R.audit(pid)
         if audit_rc != 0 or not thms:
@@ -1375,6 +1398,7 @@ def check(pid, tier, seed):
             "known_findings_printed": len(seen_known),
             "known_finding_hits": known_hits,
             "cfg_feature_extent": cfg_extent,
+            "cldr_translator_crosscheck": cldr_crosscheck,
             "source_literal_dictionary": {"tokens": [repr(t)[1:] for t in DICT["tokens"]], "integers": DICT["ints"],
                                           "rule": "literals of /repo's sources that the baseline tree did not have are added to every generator alphabet"},
             "exhaustive": False,
